@@ -24,7 +24,7 @@ ASSUMPTIONS = ['focus paths never run through or end at a function node (Call <-
                'protected survivors whose path runs through a non-mapping of the newer content are not generated',
                'explicit !del on falsy scalars / empty containers (remove-this-key idiom) only in sub-check (d) as value-less !del']
 
-KEYS = ['a', 'b', 'c', 'x', '_u', 0, 1]
+KEYS = ['a', 'b', 'c', 'x', '_u', 0, 1, -1]
 LEAF = S.scalar_node(st.one_of(st.integers(0, 9), st.sampled_from(['s', 't', '', 1.5, True, None])))
 
 
@@ -142,6 +142,20 @@ def _case(draw):
     calls = [0] if mode == 'a' else None
     older = draw(_older(0, calls, protect=(mode == 'b')))
     path = draw(_focus_path(older, end_any=mode in ('a', 'c')))
+    if mode == 'c' and draw(st.integers(0, 2)) == 0:
+        # the !merge focus meets an older list: prefer lists with at least two elements
+        def seq_paths(n, pre):
+            out = []
+            if n['t'] == 'map' and not _is_call(n):
+                for k, v in n['items']:
+                    if v['t'] == 'seq' and len(v['items']) >= 1 and not any(_is_call(x) for x in v['items']):
+                        out.append((pre + [k], len(v['items'])))
+                    out += seq_paths(v, pre + [k])
+            return out
+        sp = seq_paths(older, [])
+        big = [p_ for p_, n_ in sp if n_ >= 2] or [p_ for p_, _ in sp]
+        if big:
+            path = big[draw(st.integers(0, len(big) - 1))]
     case = {'mode': mode, 'older': older, 'path': path}
     if mode == 'e':
         # a list of distinct scalars, some elements !force, replaced by a newer list (directly, or inside a !del mapping)
@@ -176,7 +190,14 @@ def _case(draw):
                 chosen = draw(st.lists(st.sampled_from(ks), min_size=1, max_size=2, unique=True))
                 case['mid'] = {'path': mp_, 'items': [[k, 50 + i] for i, k in enumerate(chosen)]}
     elif mode == 'c':
-        if _get(older, path)['t'] != 'sc' and draw(st.booleans()):
+        met_ = _get(older, path)
+        if met_['t'] == 'seq' and draw(st.booleans()):
+            # a mapping addressing the elements of the older list by index (also from the end, also out of range)
+            n_ = len(met_['items'])
+            rng = st.integers(-n_, n_ - 1) if n_ and draw(st.integers(0, 3)) else st.integers(-n_ - 1, n_)       # mostly valid indices
+            ks = draw(st.lists(rng, min_size=1, max_size=3, unique_by=lambda k: k % n_ if n_ and -n_ <= k < n_ else ('x', k)))
+            focus = tdoc.mp([(k, draw(LEAF) if draw(st.booleans()) else tdoc.sq([draw(LEAF)], flow=True)) for k in ks], flow=draw(st.booleans()))
+        elif met_['t'] != 'sc' and draw(st.booleans()):
             focus = draw(_mirror(_get(older, path)))        # same shape as the older subtree: containers meet at depth
             case['mirror'] = True
         else:
